@@ -478,6 +478,8 @@ class ExecMixin:
             return Arr(st.fresh(name + "_a", z3.ArraySort(Int, Int)), st.fresh(name + "_n", Int))
         if v is NONE or isinstance(v, (Func, ClassVal, Builtin, ModuleVal)):
             return v
+        if isinstance(v, Opaque):
+            return Opaque(v.tag + "'")
         if isinstance(v, PyTuple):
             return PyTuple([self.havoc_value(st, x, name) for x in v.items])
         raise OutsideSubset(f"cannot havoc local `{name}` = {v!r} at a loop cut (declare its sort in the loop spec)")
